@@ -12,7 +12,7 @@ RECS = ["R-N500", "RX-A2A", "RX-A6A", "RX-A810", "RX-V1067", "RX-V2067", "RX-V47
 def jobs(rng, thorough):
     T = core.tables()
     out = []
-    for _ in range(5000 if thorough else 450):
+    for _ in range(30000 if thorough else 450):
         out.append((gen.api_init_fault(rng, T), rng.randrange(10 ** 9), rng.choice([0, 0, 0, 3])))
     return out
 
